@@ -29,6 +29,7 @@ META = {
         "distinct_nontrivial = distinct terminal per-message logs."
         " Fault-overlap family (mc/fault_overlap.py): message X suffers one fault out of {pre_execute/post_execute/post_save/on_error hook, sync or async ack, result backend} x {RuntimeError, CancelledError, TimeoutError}, backend failing once, body raise/CancelledError/timeout/no-result, malformed/unknown message, broker stream error, while the healthy message Y has suspension points before, inside and after its function and the stop request may arrive at any point; Y's result is stored exactly once and reflects its outcome, so is X's for body outcomes and backend failures with an Exception; X is exempt for hook / ack faults, CancelledError from the backend and junk."
         " Repeated faults (mc/fault_overlap.py::repeats): the same fault k times in a row (k in 3..6; thorough up to 10) on one worker, then healthy messages - a counter, pool, budget or throttle inside the worker must not change what happens at the k-th occurrence. The healthy messages' results must be stored."
+        " Typed and partially typed wire labels (incl. an un-typed timeout label): the stored labels equal the sent ones in value and type and the timeout is enforced."
     ),
     "assumptions": [
         "sync tasks run on a fake executor: completion is an explorer event; in the 'threads' scenarios each sync function runs on a real thread under a strict baton hand-off (entering and leaving the function are separate explorer events, so executions overlap), otherwise atomically with no thread",
@@ -110,7 +111,9 @@ class C07World(RecvWorld):
         want_labels = dict(m.get("labels") or {})
         if m["timeout"] is not None:
             want_labels["timeout"] = m["timeout"]
-        if r.labels != want_labels:
+        if i in self.expected_labels:
+            want_labels = dict(self.expected_labels[i])
+        if r.labels != want_labels or any(type(r.labels[k]) is not type(v) for k, v in want_labels.items()):
             return ("C07:labels-differ", f"{tag}: stored labels {r.labels!r} != message labels {want_labels!r}")
         if exp[0] == "value":
             if r.is_err or r.error is not None:
@@ -185,6 +188,11 @@ def scenarios(tier: str) -> List[Dict[str, Any]]:
                 out.append(_sc([mm], 1))
                 if tier == "thorough":
                     out.append(_sc([mm], 2))
+    # labels as a kicker sends them (prepared text + types), fully typed and with un-typed late additions
+    for typed in ("all", "partial"):
+        for m in (_m("async", value=1), _m("async", outcome="raise"), _m("async", outcome="never", timeout=0.2),
+                  _m("async", timeout=0.3, value="late"), _m("sync", value=2)):
+            out.append(_sc([dict(m, labels={"x": "1", "n": 3, "f": 1.5, "b": True, "raw": b"\xff"}, typed=typed)], 0))
     # backend failures on every subset of saves, sequences of 2 (quick) / 3 (thorough) messages
     base = [
         _m("async"), _m("async", outcome="raise"), _m("sync", value=7), _m("async", outcome="noresult"),
